@@ -120,6 +120,31 @@ theorem C17_rejected_dyn {α} (ext : Nat → Nat) (f : M α) (ops : List Int)
   have h := tryToReorder_rejected ext (siftContract ext) f ops Pre Doc hbody hpre hdoc m hD hops hpre0
   ⟨h, h.kept⟩
 
+/-- non-vacuity of `C17_rejected_dyn`: the body of `ite` with held operands meets its hypotheses
+(two-outcome specification `iteF_out`, seen as a three-outcome one) -/
+example (ext : Nat → Nat) (m : Mgr) (hD : DynInv ext m) (g u v : Int) (hg : HeldX ext g)
+    (hu : HeldX ext u) (hv : HeldX ext v) : DynResult ext (IteDoc g u v) m (ite g u v m) := by
+  refine (C17_rejected_dyn ext (iteRaw g u v) [g, u, v] (fun _ => True) (IteDoc g u v)
+    ?_ (fun _ _ _ _ => trivial) ?_ m hD ?_ trivial).1
+  · intro m0 hI0 _ _ _ hmem
+    rw [iteRaw_eq]
+    refine ((iteF_out (m0.nvars + 2) m0 g u v hI0 (hmem g (by simp)) (hmem u (by simp))
+      (hmem v (by simp)) (by omega)).mono ?_).toE
+    intro r m1 _ hp
+    refine ⟨hp.mem, fun σ => ?_⟩
+    have hl : m1.tbl.l2v = m0.tbl.l2v := hp.frame.l2v
+    unfold denN Tbl.lift Tbl.nameOf
+    rw [hl, hp.den]
+  · intro t t' r t'' hB _ hd
+    refine ⟨hd.1, fun σ => ?_⟩
+    rw [hd.2 σ, (hB.ops g (by simp)).2 σ, (hB.ops u (by simp)).2 σ, (hB.ops v (by simp)).2 σ]
+  · intro w hw
+    simp only [List.mem_cons, List.not_mem_nil, or_false] at hw
+    rcases hw with rfl | rfl | rfl
+    · exact hg
+    · exact hu
+    · exact hv
+
 /-- C17, generic, for bodies that accept ARBITRARY arguments (`TotE`: whatever they return or
 raise, only nodes were added and the signal comes only from an armed context) -/
 theorem C17_total_dyn {α} (ext : Nat → Nat) (f : M α)
